@@ -22,6 +22,12 @@ claimed = {
  "C15": ("panic-site typing over the static call closure of Decode, recover-handler typestate, loop-progress classification, non-nil push sources, guard-interval bounds lint on record consumers (go/ssa)",
          "Decides that every explicit panic reachable from Decode carries an error, that Decode/Encode install (first thing, unconditionally) a handler converting every error-valued panic including runtime.Error into the named result, that each decoder loop consumes input or has a bounded induction variable, that pushed/returned values are non-nil, and that the record consumers outside the recover scope have no unguarded len(x)-k/constant index, unchecked assertion or reachable panic (found and fixed F9).",
          "Trusts go/ssa and go.starlark.net; memory exhaustion and 32-bit length overflow are outside the property. Crash-freedom for all byte strings is not itself proven."),
+ "C16": ("value-origin (parameter identity through SSA phis), edge-fact evaluation of the reverse flag, must-facts on mapping edits, table agreement (go/ssa + go/ast)",
+         "Decides that diff nodes carry the operands in the order given (found and fixed F2), that the sequence differ's operand swap is undone when edits are recorded (kind and cursor as a function of differ.reverse), that mapping edits are tied to exactly the three key classes, that the reason table equals the unpickler's key set, and that a nil diff is returned exactly on the equal edge.",
+         "Trusts go/ssa and starlark equality. Reconstruction of both sequences from the edit script (the O(NP) search) is behavioural and not decided."),
+ "C17": ("extraction of the glob->regexp translation table and emission skeleton from go/ssa (path enumeration over one loop iteration), then structural checks with regexp/syntax on the extracted constants",
+         "Decides, without executing CompileGlobs: unescaped echo only for non-metacharacters, backslash-escape only for punctuation, the fragments for * ** ? and the escape rules (incl. bytes consumed), and that the skeleton for 1..3 patterns parses to begin-text·alternatives·end-text (found and fixed F3); callers use MatchString only.",
+         "Trusts go/ssa and Go's regexp engine/parser; recognises the strings.Builder emission idiom (other idioms are reported undecided); paths contain no newline; [ ] pass-through frozen as outside the property's wording."),
  "C20": ("lock-set + dominance/must-facts over go/ssa",
          "Decides guarded-by on cache.entries, re-check of the same key under the write lock before the call with no unlock through to the update, update only on the nil-error edge with the call's value, hits return the stored value.",
          "Trusts go/ssa and sync.RWMutex semantics."),
